@@ -57,7 +57,7 @@ type Sched struct {
 }
 
 // behaviour codes of a harness node per visit: 0 pass (return the event), 1 replace (return a fresh event),
-// 2 drop (nil, nil), 3 error (nil, err), 4 event and error
+// 2 drop (nil, nil), 3 error (nil, err), 4 event and error, 5 error: a package-level sentinel value, 6 error: the node's stored value
 type Case struct {
 	ID    int     `json:"id"`
 	Gen   string  `json:"gen"`
@@ -143,6 +143,8 @@ func (e *herr) Unwrap() error {
 
 var sharedErrs sync.Map // obj -> *herr
 
+var errSentinel error = &herr{id: 999998}
+
 func (n *hnode) sharedErr() error {
 	v, _ := sharedErrs.LoadOrStore(n.obj, &herr{id: n.obj*1000 + 999})
 	return v.(*herr)
@@ -197,6 +199,12 @@ func (n *hnode) Process(ctx context.Context, e *el.Event) (*el.Event, error) {
 	case 4:
 		out = e
 		err = &herr{id: n.obj*1000 + visit + 1}
+	case 5:
+		// one package-level sentinel returned by whichever node fails this way (like io.ErrShortWrite)
+		err = errSentinel
+	case 6:
+		// this node's stored error: the identical value in every pipeline that runs through the node
+		err = n.sharedErr()
 	}
 	r.mu.Lock()
 	r.inProcess--
